@@ -357,8 +357,21 @@ def replay(path: str) -> int:
         units = {u.name: u for u in mod.units(ctx, only=doc["unit"])} if _accepts_only(mod) else {u.name: u for u in mod.units(ctx)}
         u = units.get(doc["unit"])
         if u is None:
-            print("unit not found")
-            return 2
+            # an oracle unit (property predicate evaluated directly on the implementation, no model side)
+            orc = getattr(mod, "ORACLE_REPLAY", {}).get(doc["unit"])
+            if orc is None:
+                if hasattr(mod, "replay"):
+                    return mod.replay(doc)
+                print("unit not found")
+                return 2
+            impl, pred = orc
+            arg = dec(doc["input"])
+            i = core.run_impl(impl, arg)
+            why = pred(arg, dec(i) if not i.startswith("!") else None)
+            print("input   :", doc["input"][:1000])
+            print("impl    :", i[:1000])
+            print("property:", "holds on this input" if not why else "VIOLATED: " + str(why))
+            return 1 if why else 0
         arg = dec(doc["input"])
         with core.build_lock():
             core.regen()
